@@ -719,3 +719,116 @@ def _id_fresh(ctx):
         else:
             out.append(bad(R, key, 'queue() returns %s instead of a queue created by this call' % render(e)[:80], fn=fq.name))
     return out
+
+
+# ---------------------------------------------------------------------------------------------
+FRESH_FIELDS = (
+    # (struct, field, kind, what it is / why it must be made for this object)
+    ('desync::SchedulerFuture', 'result', 'arc', 'the slot the job delivers its result into (shared only with that job\'s signaller)'),
+    ('desync::PipeStream', 'core', 'arc', 'the output buffer and waker slots of one pipe'),
+    ('desync::Scheduler', 'core', 'arc', 'the schedule and thread table of one scheduler'),
+    ('desync::SchedulerCore', 'schedule', 'arc', 'the list of queues waiting for a thread of this scheduler'),
+    ('desync::SchedulerCore', 'threads', 'any', 'the thread table of this scheduler'),
+    ('desync::SchedulerCore', 'max_threads', 'any', 'the size limit of this scheduler\'s pool'),
+    ('desync::JobQueue', 'core', 'mutex', 'the state and job list of one queue'),
+    ('desync::PipeContext', 'poll_fn', 'arc', 'the poll function (input stream + closure) of one pipe'),
+    ('desync::DrainWaker', 'state', 'mutex', 'the latch of one poll-side drain'),
+)
+INITIAL_VALUES = (
+    # (struct, field, accepted renderings of the initial value, what)
+    ('desync::JobQueueCore', 'state', ('QueueState::Idle{}',), 'a new queue is Idle (nobody runs it, nothing is owed)'),
+    ('desync::JobQueueCore', 'queue', ('new()', 'with_capacity('), 'a new queue holds no job'),
+    ('desync::PipeStreamCore', 'closed', ('0',), 'a new pipe is open'),
+    ('desync::PipeStreamCore', 'pending', ('new()', 'with_capacity('), 'a new pipe has produced nothing'),
+    ('desync::SchedulerFutureResult', 'result', ('FutureResultState::None{}',), 'a new future has no result'),
+    ('desync::SchedulerFuture', 'draining', ('0',), 'a new future is not draining its queue'),
+)
+
+
+def _strip_clones(e):
+    while e[0] == 'call' and e[1].endswith(('::clone', 'Into::into', 'From::from')) and e[2]:
+        e = e[2][0]
+    return e
+
+
+def id_fresh_objects(ctx):
+    """Every protocol object is made for its owner: the shared slots, tables and latches that the rules reason about per object (one result
+    slot per future, one buffer per pipe, one schedule per scheduler, one state per queue, one busy flag per pool thread) are created where
+    the object is created - an `Arc::new(..)` / `Mutex::new(..)` of that very constructor call, never a clone of something that already
+    exists (a cache, a pool of spares, a static, a thread-local, a field of another object).  And they start out in the state the protocol
+    starts from.  Two objects that share one of these answer for each other: a result delivered to the wrong future, a thread marked busy
+    for another thread's work, a pipe closed by another pipe's consumer."""
+    F = ctx.F
+    out = []
+    R = 'ID-fresh'
+    n = 0
+    for adt_name, field, kind, what in FRESH_FIELDS:
+        adt = F.adts.get(adt_name)
+        if not adt:
+            continue
+        names = [f_['name'] for f_ in adt['variants'][0]['fields']]
+        if field not in names:
+            continue
+        idx = names.index(field)
+        for fn in F.crate_fns():
+            for b in fn.blocks:
+                if b['cleanup']:
+                    continue
+                for s_ in b['stmts']:
+                    if s_['k'] == 'assign' and s_['rv']['k'] == 'agg' and s_['rv'].get('adt') == adt_name and len(s_['rv'].get('ops', [])) > idx:
+                        n += 1
+                        key = '%s.%s|made-by-%s' % (adt_name.split('::')[-1], field, short(fn.root or fn.name))
+                        e = _strip_clones(fn.expr_of_operand(s_['rv']['ops'][idx]))
+                        want = 'alloc::sync::Arc::new' if kind == 'arc' else 'std::sync::poison::mutex::Mutex::new'
+                        if e[0] == 'call' and (e[1] == want or (kind == 'any' and e[1] in ('alloc::sync::Arc::new', 'std::sync::poison::mutex::Mutex::new'))):
+                            out.append(ok(R, key, 'a fresh `%s(..)` of this constructor call' % want.split('::')[-2], fn=fn.name))
+                        elif e[0] in ('arg', 'var') and fn.is_helper:
+                            pass
+                        elif e[0] == 'arg' and adt_name in ('desync::Scheduler',) and kind == 'arc':
+                            # a handle on an existing scheduler (SchedulerFuture keeps `Scheduler { core }` of the scheduler it was made by)
+                            out.append(ok(R, key, 'a handle on the caller\'s scheduler core', fn=fn.name))
+                        else:
+                            out.append(bad(R, key, '%s.%s (%s) is not created by the constructor call that builds the %s (%s): whatever else holds it shares this object\'s %s' % (
+                                adt_name.split('::')[-1], field, what, adt_name.split('::')[-1], render(e)[:60], field), fn=fn.name))
+    # a pool thread's busy flag: one per thread, starting false
+    for fn in F.crate_fns():
+        for bb, t in fn.calls():
+            if (t['func'].get('fn') or '').endswith('Vec::push') and t['args'] and t['args'][0]['k'] != 'const' and 'SchedulerThread' in clean_ty(t['args'][0]['pl']['ty']) and not fn.blocks[bb]['cleanup'] and len(t['args']) > 1:
+                e = fn.expr_of_operand(t['args'][1])
+                recv = render(fn.expr_of_operand(t['args'][0]))
+                if e[0] == 'agg' and e[1] == 'tuple' and len(e[3]) == 2 and 'lock(' in recv and '.threads' in recv:
+                    n += 1
+                    key = 'thread.busy|made-by-%s' % short(fn.root or fn.name)
+                    flag = _strip_clones(e[3][0])
+                    txt = render(flag).replace(' ', '')
+                    if flag[0] == 'call' and flag[1] == 'alloc::sync::Arc::new' and txt.endswith('new(new(0))'):
+                        out.append(ok(R, key, 'a fresh flag, initially false, for the thread that is pushed', fn=fn.name))
+                    elif flag[0] == 'call' and flag[1] == 'alloc::sync::Arc::new':
+                        out.append(bad(R, key, 'a new pool thread starts out marked busy (%s): it is never handed work and never counted idle' % render(flag)[:40], fn=fn.name))
+                    else:
+                        out.append(bad(R, key, 'the busy flag of a new pool thread is not its own (%s): work handed to one thread marks another one busy, and an idle thread is passed over' % render(flag)[:60], fn=fn.name))
+    # initial values
+    for adt_name, field, accepted, what in INITIAL_VALUES:
+        adt = F.adts.get(adt_name)
+        if not adt:
+            continue
+        names = [f_['name'] for f_ in adt['variants'][0]['fields']]
+        if field not in names:
+            continue
+        idx = names.index(field)
+        for fn in F.crate_fns():
+            for b in fn.blocks:
+                if b['cleanup']:
+                    continue
+                for s_ in b['stmts']:
+                    if s_['k'] == 'assign' and s_['rv']['k'] == 'agg' and s_['rv'].get('adt') == adt_name and len(s_['rv'].get('ops', [])) > idx:
+                        n += 1
+                        key = '%s.%s|initial-value-in-%s' % (adt_name.split('::')[-1], field, short(fn.root or fn.name))
+                        txt = render(fn.expr_of_operand(s_['rv']['ops'][idx]))
+                        if any(txt == a_ or (a_.endswith('(') and txt.startswith(a_)) for a_ in accepted):
+                            out.append(ok(R, key, '%s (`%s`)' % (what, txt[:30]), fn=fn.name))
+                        elif txt in ('1', '0') or txt.endswith('{}') or txt.startswith(('QueueState::', 'FutureResultState::')):
+                            out.append(bad(R, key, '%s.%s starts out as `%s`: %s is what every rule and every caller assumes' % (adt_name.split('::')[-1], field, txt[:40], what), fn=fn.name))
+    if n < 12:
+        out.append(undecided(R, 'floor', 'only %d constructor sites recognised (expected at least 12)' % n))
+    return out
